@@ -155,17 +155,18 @@ where
     // Nulls in FixedSizeListArray take up space and so we must pad the values
     let values = array.values().to_data();
     let mut mutable = MutableArrayData::new(vec![&values], nullable, cap);
+    // The values of a sliced list array start at its first offset, not at 0
+    let first_offset = array.offsets()[0].as_usize();
     // The end position in values of the last incorrectly-sized list slice
-    let mut last_pos = 0;
+    let mut last_pos = first_offset;
 
     // Need to flag when previous vector(s) are empty/None to distinguish from 'All slices were correct length' cases.
     let is_prev_empty = if array.offsets().len() < 2 {
         false
     } else {
-        let first_offset = array.offsets()[0].as_usize();
         let second_offset = array.offsets()[1].as_usize();
 
-        first_offset == 0 && second_offset == 0
+        first_offset == second_offset
     };
 
     for (idx, w) in array.offsets().windows(2).enumerate() {
@@ -197,7 +198,8 @@ where
     }
 
     let values = match last_pos {
-        0 if !is_prev_empty => array.values().slice(0, cap), // All slices were the correct length
+        // All slices were the correct length
+        p if p == first_offset && !is_prev_empty => array.values().slice(first_offset, cap),
         _ => {
             if mutable.len() != cap {
                 // Remaining slices were all correct length
